@@ -127,7 +127,8 @@ class IdentityCMap(CMapBase):
     def decode(self, code: bytes) -> Tuple[int, ...]:
         n = len(code) // 2
         if n:
-            return struct.unpack(">%dH" % n, code)
+            # An odd final byte is not a complete two-byte code: ignore it.
+            return struct.unpack(">%dH" % n, code[: 2 * n])
         else:
             return ()
 
